@@ -457,7 +457,7 @@ def err_free(line):
 # ---------------------------------------------------------------------------------- directed corpora
 
 TARGET_KINDS = [("file", "g"), ("emptydir", "m"), ("dir", "d"), ("missing", "zz"), ("noparent", "nn/zz"),
-                ("belowfile", "g/zz"), ("root", ""), ("deepfile", "d/f"), ("deepdir", "d/e")]
+                ("belowfile", "g/zz"), ("root", ""), ("deepfile", "d/f"), ("deepdir", "d/e"), ("farbelowfile", "d/f/sub/dir")]
 ONE_PATH_OPS = ["exists", "metadata", "isfile", "isdir", "readdir", "createdir", "createdirall", "createfile", "appendfile",
                 "openfile", "removefile", "removedir", "removedirall", "readtostring", "setmtime", "setctime", "setatime", "walkdir",
                 "probe"]
